@@ -160,6 +160,11 @@ class XMLWriter:
             if val is None:
                 continue
 
+            # XML does not keep surrounding whitespace: a required text that is
+            # blank would be saved as an empty element the reader refuses.
+            if isinstance(val, str) and not val.strip() and dict(fmt.arguments).get(k) == 1:
+                raise ValueError("XML cannot represent the blank <%s> of %s" % (k, repr(curr_el)))
+
             if isinstance(fmt, ofmt.Property.__class__) and k == "value":
                 # Custom odML tuples require special handling for save loading from file.
                 if curr_el.dtype and curr_el.dtype.endswith("-tuple") and val:
